@@ -8,6 +8,7 @@ import (
 	"sort"
 
 	"github.com/New-JAMneration/JAM-Protocol/internal/types"
+	"github.com/New-JAMneration/JAM-Protocol/internal/utilities/merklization"
 )
 
 // planBlock chooses the slot and the extrinsics of the next block on top of parent.
@@ -30,7 +31,12 @@ func (ru *run) planBlock(parent *chainBlock) blockPlan {
 		gap = types.EpochLength + 1 + t.Choose(types.EpochLength, "gap_big")
 	}
 	plan.slot = st.Tau + types.TimeSlot(gap)
+	if plan.slot < ru.minSlot {
+		plan.slot = ru.minSlot
+	}
 	_, m2 := epochOf(plan.slot)
+	// disputes first: at an epoch change this block's new offenders are already missing from the ticket ring
+	ru.planDisputes(parent, &plan)
 	// tickets: only before the end of the submission window
 	if int(m2) < types.SlotSubmissionEnd && (t.Prob(2, 3, "tickets") || ru.ticketHeavy) {
 		n := 1 + t.Choose(types.MaxTicketsPerBlock, "ntickets")
@@ -51,11 +57,11 @@ func (ru *run) planBlock(parent *chainBlock) blockPlan {
 			picks = append(picks, free[k])
 			free = append(free[:k], free[k+1:]...)
 		}
-		plan.ext.Tickets = ru.a.mkTickets(st, plan.slot, picks)
+		plan.ext.Tickets = ru.a.mkTickets(st, plan.slot, picks, plan.offenders...)
 		plan.ticketPicks = picks
 	}
 	ru.planPreimages(parent, &plan)
-	ru.planDisputes(parent, &plan)
+	ru.planReports(parent, &plan)
 	return plan
 }
 
@@ -77,18 +83,38 @@ func (ru *run) ticketUsed(parent *chainBlock, slot types.TimeSlot, p [2]int) boo
 	return false
 }
 
-// solicitedOpen returns, per service (ascending), the blobs that are solicited and not yet provided in st.
-func (ru *run) solicitedOpen(st *types.State) map[types.ServiceID][][]byte {
-	out := map[types.ServiceID][][]byte{}
-	for sid, blobs := range ru.g.solicited {
-		ac, ok := st.Delta[sid]
-		if !ok {
+// rawLookup reads the availability record of (service, hash, length) straight from exported key-values: the state
+// parser can attribute a lookup entry to its service only when the preimage itself is stored, so solicited-and-
+// unprovided entries exist in an export only as raw entries.
+func rawLookup(kvs types.StateKeyVals, sid types.ServiceID, key types.LookupMetaMapkey) (slots []types.TimeSlot, present bool) {
+	want := merklization.EncodeDelta4Key(sid, key)
+	for _, kv := range kvs {
+		if kv.Key != want {
 			continue
 		}
-		for _, b := range blobs {
-			ts, has := ac.LookupDict[types.LookupMetaMapkey{Hash: h256(b), Length: types.U32(len(b))}]
+		v := []byte(kv.Value)
+		if len(v) == 0 || int(v[0]) > 3 || len(v) != 1+4*int(v[0]) {
+			return nil, false
+		}
+		for i := 0; i < int(v[0]); i++ {
+			slots = append(slots, types.TimeSlot(uint32(v[1+4*i])|uint32(v[2+4*i])<<8|uint32(v[3+4*i])<<16|uint32(v[4+4*i])<<24))
+		}
+		return slots, true
+	}
+	return nil, false
+}
+
+// solicitedOpen returns, per service (ascending), the blobs that are solicited and not yet provided in the state of b.
+func (ru *run) solicitedOpen(b *chainBlock) map[types.ServiceID][][]byte {
+	out := map[types.ServiceID][][]byte{}
+	for sid, blobs := range ru.g.solicited {
+		if _, ok := b.state.Delta[sid]; !ok {
+			continue
+		}
+		for _, blob := range blobs {
+			ts, has := rawLookup(b.kvs, sid, types.LookupMetaMapkey{Hash: h256(blob), Length: types.U32(len(blob))})
 			if has && len(ts) == 0 {
-				out[sid] = append(out[sid], b)
+				out[sid] = append(out[sid], blob)
 			}
 		}
 	}
@@ -106,10 +132,10 @@ func sortPreimages(p types.PreimagesExtrinsic) {
 
 func (ru *run) planPreimages(parent *chainBlock, plan *blockPlan) {
 	t := ru.t
-	if !t.Prob(1, 3, "preimages") {
+	if !t.Prob(1, 3, "preimages") && !(ru.r.Prop == "C31" && t.Prob(1, 2, "preimages_c31")) {
 		return
 	}
-	open := ru.solicitedOpen(parent.state)
+	open := ru.solicitedOpen(parent)
 	var ext types.PreimagesExtrinsic
 	for _, sid := range ru.g.svcIDs {
 		for _, b := range open[sid] {
@@ -160,6 +186,15 @@ func (ru *run) planDisputes(parent *chainBlock, plan *blockPlan) {
 		var target types.WorkReportHash
 		th := h256([]byte{byte(parent.depth), byte(i), byte(t.Choose(250, "target"))})
 		copy(target[:], th[:])
+		var pending []types.WorkReportHash
+		for _, a := range st.Rho {
+			if a != nil {
+				pending = append(pending, reportHash(&a.Report))
+			}
+		}
+		if len(pending) > 0 && t.Prob(1, 2, "judge_pending_report") {
+			target = pending[t.Choose(len(pending), "which_pending")]
+		}
 		if judged[target] {
 			continue
 		}
